@@ -676,6 +676,23 @@ fn rejection(ctx: &Ctx, root: &Path, rng: &mut Rng, cli: Option<&str>) {
         }
         rejected.push(m);
     }
+    // the semantic rejection class: well-formed syntax, one member name defined twice (the parser
+    // refuses these with its "multiple definitions" error, after the grammar has accepted them)
+    for (k, dup) in [
+        "interface org.verif.dup\nmethod Get() -> (a: int)\nmethod Get(x: string) -> ()\n",
+        "interface org.verif.dup\ntype State (a: int)\ntype State (b: string)\nmethod M(s: State) -> ()\n",
+        "interface org.verif.dup\nmethod Thing() -> ()\nerror Thing (why: string)\n",
+        "interface org.verif.dup\ntype Thing (a: int)\nmethod Other() -> ()\nmethod Thing() -> ()\n",
+    ]
+    .iter()
+    .enumerate()
+    {
+        if varlink_parser::IDL::try_from(*dup).is_err() {
+            rejected.insert(k, dup.to_string());
+        } else {
+            ctx.inconclusive(json!({"harness": "a duplicate-member text was accepted by the parser (C11's business)", "text": dup}));
+        }
+    }
     for (k, text) in rejected.iter().enumerate() {
         ctx.case(Some(hash_of(&("rejected", text))));
         ctx.count("rejected_texts", 1);
@@ -704,7 +721,7 @@ fn rejection(ctx: &Ctx, root: &Path, rng: &mut Rng, cli: Option<&str>) {
     let dir = root.join("macrej");
     let mut files: Vec<(String, String)> = Vec::new();
     let mut lib = String::from("#![allow(warnings)]\n");
-    let sample: Vec<&String> = rejected.iter().filter(|t| !t.contains("\"#")).take(ctx.tier.pick(4, 30)).collect();
+    let sample: Vec<&String> = rejected.iter().filter(|t| !t.contains("\"#")).take(ctx.tier.pick(8, 30)).collect();
     for (k, t) in sample.iter().enumerate() {
         files.push((format!("src/rj{}.rs", k), format!("varlink_derive::varlink!(inner, r#\"{}\"#);\n", t)));
         lib.push_str(&format!("pub mod rj{};\n", k));
